@@ -8,14 +8,19 @@ and a history of requests (all argument spellings), evaluations through kept
 handles, and edits of the definitions.
 
 Triggers of recorded defects are avoided (README: Known defects):
-  D16/D38/D14  the edits {new reference, delete reference, delete cells, new child space, delete space,
-               change of the parameter formula} are not propagated to live ItemSpaces unless the edited space is
-               the ItemSpace's own parent.  Trigger (decidable on the case): such an edit on a space that is a
-               child space or is named as 'base' by any parameter formula seen so far, or any space deletion.
-               The generator then first deletes every ItemSpace (clear_items on every parametrised space),
-               so that the edit meets no live instance.  (counted: distribution.precautions)
-  D15          a reference whose value is a modelx object: never generated (values are ints)
-  D18          'bases' key in the result of a parameter formula: never generated
+  D38  changing the parameter formula of a space deletes only the ItemSpaces whose *parent* is that space.
+       Trigger (decidable on the case): setparams on a space that is a child space or is named as 'base' by any
+       parameter formula seen so far.
+  D39  deleting a space without child spaces does not delete the ItemSpaces that other spaces built from it.
+       Trigger: delspace q where a space in the tree of q is named as 'base' by any parameter formula seen so far.
+  Before such an edit the generator deletes every ItemSpace (clear_items on every parametrised space), so that the
+  edit meets no live instance (counted: distribution.precautions; env C07_NO_PRECAUTION=1 disables this, for
+  trying a repaired tree).
+  D14 D15 D16 D18 are repaired in /repo (9ebab50 320be27 76f1b96 21f11e8): new / changed / deleted references,
+  deleted cells, new / deleted child spaces and space deletions are generated on child spaces and foreign bases
+  with live instances around and no precaution.  References to modelx objects (D15) and the 'bases' key (D18)
+  are outside the generated vocabulary (reference values are ints); their witnesses corpus/C07/finding_D15_* /
+  finding_D18_* run in every check and a failure is a (P) failure now that the keys are listed as fixed.
   names of deleted spaces are not reused (a re-created static space has a new dynamic_cache: old handles stay dead)."""
 import json, copy, os
 from dynmirror import apply_edit
